@@ -1,6 +1,7 @@
 (* C07 - identical data is stored once. *)
 From Coq Require Import List Arith Bool.
-From Coq Require Import String.
+From Coq Require Import String NArith.
+From Replicat Require Model.Chunker Proofs.ChunkerProofs.
 From Replicat Require Import Model.Repo Proofs.RepoProofs Proofs.RepoTie Gen.RepoFacts Model.Dedup Proofs.RoundTrip.
 From Replicat Require Import Lib.PyStr Model.Location Proofs.LocationProofs Proofs.FamiliesDisjoint.
 Import ListNotations.
@@ -25,6 +26,16 @@ Print Assumptions C07_repeat_uploads_nothing.
 Theorem C07_present_uploads_nothing : forall f tab cs, (forall d, In d tab -> In (f, d) cs) -> missing f tab cs = [].
 Proof. exact present_uploads_nothing. Qed.
 Print Assumptions C07_present_uploads_nothing.
+
+(* "a snapshot of unchanged data transfers no chunk payload" starts at the chunker: the chunk sequence of a stream is a function of the
+   stream, the key (inside [hash]) and the chunk lengths only - not of what lies in memory behind a chunking buffer ([junk], one value
+   per call of the native scan, arbitrary) - so the second snapshot of the same files names the same chunks, which are present
+   (C07_present_uploads_nothing).  Same pieces here; for other read-piece boundaries the head outside the last 2*max bytes is shared
+   (C10_bounds_and_segmentation). *)
+Theorem C07_unchanged_stream_same_chunks : forall {B : Type} (hash : list B -> N) mn mx, 1 <= mn -> Chunker.align4 mn <= mx -> forall pieces j1 j2,
+  Chunker.chunkify hash mn mx pieces j1 = Chunker.chunkify hash mn mx pieces j2.
+Proof. exact (fun B hash mn mx H1 H2 => ChunkerProofs.junk_independent hash mn mx H1 H2). Qed.
+Print Assumptions C07_unchanged_stream_same_chunks.
 
 (* within one snapshot every distinct digest has one table entry *)
 Theorem C07_table_once : forall {D} (deqb : D -> D -> bool), (forall x y, deqb x y = true <-> x = y) ->
